@@ -56,6 +56,13 @@ func runC17(c *Ctx) {
 			c.Emit("c17.holds.mul_row_col", mF(a)+" "+mF(b)+" "+mF(a.Multiply(b)), "true")
 		}
 	}
+	// corpus: opposite and equal directions along the coordinate axes (the x axis needs the fallback axis)
+	for _, d := range []vector3.Float64{vector3.New(1., 0., 0.), vector3.New(-1., 0., 0.), vector3.New(0., 1., 0.), vector3.New(0., -1., 0.), vector3.New(0., 0., 1.), vector3.New(0., 0., -1.)} {
+		for _, e := range []vector3.Float64{d.Scale(-1), d} {
+			c.Emit("c17.quat.rotationto", vF(d)+" "+vF(e), qF(quaternion.RotationTo(d, e)))
+			c.Emit("c17.holds.rotation_to", vF(d)+" "+vF(e)+" "+vF(quaternion.RotationTo(d, e).Rotate(d)), "true")
+		}
+	}
 	for k := 0; k < c.N; k++ {
 		a, b := c.mat4(), c.mat4()
 		c.Emit("c17.mat.add", mF(a)+" "+mF(b), mF(a.Add(b)))
